@@ -920,7 +920,9 @@ impl Scenario for S1 {
         let p_delete = if is_cuckoo { *g.pick(&[0u64, 5, 15, 30]) } else { 0 };
         let p_union = if prop == "C12" { 12 } else { *g.pick(&[0u64, 2, 6]) };
         let p_try = if prop == "C12" { 10 } else { 1 };
-        let p_enum = if is_cuckoo && (prop == "C12" || prop == "C14") { 3 } else { 0 };
+        // EnumInserts is expensive (|U| x salts clones, each possibly walking 500 kicks): at most a few per run
+        let mut enum_budget = if is_cuckoo && prop == "C12" { g.range(0, 2) } else if is_cuckoo && prop == "C14" { g.below(3) / 2 } else { 0 };
+        let p_enum = if enum_budget > 0 { 3 } else { 0 };
         let hot = g.range(1, n as u64) as usize;
         let mut ops = Vec::with_capacity(nops);
         let pick_key = |g: &mut Sm| -> u64 {
@@ -946,8 +948,9 @@ impl Scenario for S1 {
             } else if x < p_delete + p_union + p_try {
                 let nk = g.range(1, 10);
                 ops.push(FOp::TryUnion(BSpec { keys: (0..nk).map(|_| pick_key(&mut g)).collect(), rng_seed: g.u64() }));
-            } else if x < p_delete + p_union + p_try + p_enum {
-                ops.push(FOp::EnumInserts { salts: g.range(1, 4) as u8 });
+            } else if x < p_delete + p_union + p_try + p_enum && enum_budget > 0 {
+                enum_budget -= 1;
+                ops.push(FOp::EnumInserts { salts: g.range(1, 3) as u8 });
             } else if x < p_delete + p_union + p_try + p_enum + 1 {
                 ops.push(if g.chance(1, 2) { FOp::Clear } else { FOp::Fork });
             } else {
